@@ -145,8 +145,7 @@ func (s *Sockets) serve(c *net.UnixConn, master bool) {
 		closeAfter := false
 		switch {
 		case strings.TrimSpace(bare) == "prompt":
-			interactive = !interactive || true
-			out = ""
+			interactive = true
 			if _, err := c.Write([]byte("\n> ")); err != nil {
 				return
 			}
@@ -192,15 +191,15 @@ func (s *Sockets) masterCmd(cmd string) (string, bool) {
 		_ = s.Fake.Reload()
 		return "", true
 	case "show proc":
-		failed := 0
+		// layout of haproxy 2.5+; a failed reload shows up as `[failed: N]` on the master line
+		reloads := "1               "
 		s.Fake.mu.Lock()
-		if s.Fake.LoadErr != nil {
-			failed = 1
+		if s.Fake.lastReloadFailed {
+			reloads = "1 [failed: 1]   "
 		}
 		s.Fake.mu.Unlock()
-		_ = failed
 		return "#<PID>          <type>          <reloads>       <uptime>        <version>\n" +
-			"1               master          1               0d00h00m01s     2.8.0-fake\n" +
+			"1               master          " + reloads + "0d00h00m01s     2.8.0-fake\n" +
 			"# workers\n" +
 			"3               worker          0               0d00h00m00s     2.8.0-fake\n" +
 			"# old workers\n" +
